@@ -32,7 +32,7 @@ def _p(claim, props=None, level="other", streams=None):
 
 
 PROPS = {
-    "C01": _p("Proof (partial: one epoch, (frame, Atropos) sequences), about the implementation-level model Model/Orderer.lean + Model/Election.lean (kernels regenerated from abft/) and the graph-level rules of Spec/ElectionRules.lean. "
+    "C01": _p("Proof (partial: (frame, Atropos) sequences per epoch; (epoch, frame, Atropos, sealed) sequences and epoch transitions over several epochs), about the implementation-level model Model/Orderer.lean + Model/Election.lean (kernels regenerated from abft/) and the graph-level rules of Spec/ElectionRules.lean. "
               "C01_order_independent_partial: let N be a valid history (Valid = what the event checkers guarantee; FramesAccepted = every claimed frame obeys the frame rule, the quorum counted over roots other than the event itself) "
               "whose forking validators hold less than one third of the weight. Two instances of the model, each started by `initial` and each processing ALL events of N with `process` in its own parents-first order, "
               "both accept every event (no wrong-frame rejection, none of the election errors two-fork-roots / missing-vote / not-enough-votes / all-decided-no), emit the same (frame, Atropos) sequence and end with the same last decided frame. "
@@ -41,7 +41,14 @@ PROPS = {
               "Hypotheses remaining beyond the property's own (hence _partial): each instance's forkless-cause oracle answers the graph relation N.FC on the event numbers of N (C05); each validator record is the canonical one with total <= 2^31-1 (C12); "
               "accepted frames < 2^31; the application never seals (one epoch). No longer assumed (now derived): BlocksFromElections, OpenElection, FramesConsecutive, not-all-decided-no, root table = graph roots. "
               "Also C01_election_order_independent / C01_election_same_result: one election, any two closed feeds (other oracles, other orders) return the same Atropos. "
-              "Not proved: equality of cheater lists (C03/C06), epoch transitions / several epochs (C09), restarts (C08). "
+              "Several epochs: the application's seal decision is the oracle sealAt(epoch, frame). C01_epoch_partial: two instances in `initial ep vals` that are given all events of the epoch's history, each in its own "
+              "parents-first order, with applications sealing at the same frames with the same sets, accept every event submitted, emit the same decided frames (epoch, frame, Atropos, sealed flag) and either both seal at the "
+              "same frame and are then exactly `initial (ep+1) nv` (C09_seal_state) or neither seals and they end in the same epoch / validators / last decided frame. C01_multi_epoch_partial: by induction over the epochs "
+              "(the run decomposes into per-epoch runs each starting from `initial`), both emit the same (epoch, frame, Atropos, sealed) sequence and make the same epoch transitions. Proof: the sealing instance is computed "
+              "from the never-sealing one of L5 (cut the decided frames at the first sealing frame: boot_sim / handle_sim / process_sim / runEpoch_sim). Events of an old epoch arriving after the seal are not submitted: "
+              "runEpoch stops at the Process call that seals and skips the rest of that epoch's list (as the harness does); C01_late_events_partial: this is the plain run on the input list without those events. "
+              "Per-epoch hypotheses (EpochsOK): those above except 'never seals', the forkless-cause oracle being per epoch, and for every validator set the application may return in an epoch the next epoch's history carries its canonical record. "
+              "Not proved: equality of cheater lists (C03/C06), restarts combined with seals (C08 is one epoch). "
               "Correspondence: every instance's accept/reject decisions, blocks, cheaters and epoch transitions are compared with the graph-level reference, which is "
               "order-free by construction; instances process the same events in different random parents-first orders.",
               props=["LachesisVerif.Props.C01"], level="proof"),
@@ -102,22 +109,22 @@ PROPS = {
               "rejected wrong-frame events are injected on the builder instance only; the other instances never see them; "
               "all instances must keep agreeing with the reference (which ignores them by construction).",
               props=["LachesisVerif.Props.C07"], level="proof"),
-    "C08": _p("Proof (partial): on Model.Orderer (persisted = epoch, validators, LastDecidedFrame, roots table; volatile = the election; restart = "
-              "bootstrap, which re-creates the election at LastDecidedFrame+1 and re-votes the known roots in table order). Unconditional: a restart that "
-              "decides nothing leaves the persisted part untouched and its outcome does not depend on the volatile part (C08_persisted_unchanged, "
-              "C08_volatile_irrelevant); frameToDecide = LastDecidedFrame+1 and election validators = epoch validators are invariants of Process (C08_sync). "
-              "Under the hypotheses of C10_single_election_partial for the open election (canonical validators, observe = graph forkless cause, roots table = "
-              "graph roots, slot uniqueness, accepted frames) plus named hypotheses: the election rebuilt by the restart is equivalent to the running one - same "
-              "subjects decided with the same yes/no and observed root (= the graph-level decisions), the same votes of every known later root on every "
-              "undecided subject (= the graph-level voteYes) - and bootstrap returns the same persisted state and no block (C08_restart_election_equiv_partial); "
-              "the next processRoot has the same outcome in both (C08_next_root_equiv_partial); and for ONE further Process step the restarted instance gives "
-              "the same accept/reject, the same election error if any, the same decided frames, and equal persisted states afterwards "
-              "(C08_restart_next_process_partial; identical states as soon as a frame is decided). Named hypotheses, NOT proved (consequences of L5 of C10 and of graph "
-              "facts): RunningFeed (the running election is the result of a closed feed of exactly the known later roots that returned nothing), Contiguous (no "
-              "empty frame below a frame with roots), root frames < 2^32, at least one validator, the new event is not forkless-caused by known roots, Setup for "
-              "the table including the new event's roots. Not proved: lifting from one step to all later steps (= L5 as an invariant), restarts that decide "
-              "frames on start-up, the vector-index reload (observe is assumed to be the same function before and after), store caches (C33). "
-              "Non-vacuity: one-validator example satisfying all hypotheses of C08_restart_election_equiv_partial. "
+    "C08": _p("Proof (partial: one epoch): on Model.Orderer (persisted = epoch, validators, LastDecidedFrame, roots table; volatile = the election; restart = "
+              "bootstrap, which re-creates the election at LastDecidedFrame+1 and re-votes the known roots in table order). "
+              "Whole continuations, from L5 as a proved invariant of process runs (OInv/OpenEl, C10): C08_restart_invisible_partial - for every valid history with accepted frames and "
+              "forkers below one third, every parents-first processing order pre ++ post of (an ancestry-closed part of) its events and every split point, the instance that processed pre "
+              "can be restarted (bootstrap succeeds, emits no block, reports no seal, keeps epoch / validators / LastDecidedFrame / roots table) and the restarted instance answers every "
+              "event of post exactly like the instance that kept running (all accepted, per event the same decided frames = epoch, frame, Atropos, sealed flag) and ends with the same "
+              "persisted state; C08_restart_invisible_history_partial - the same for the history order 0..n-1 itself with a restart after the first k events; "
+              "C08_restarts_invisible_partial - restarts at any number of points give the same answers and final persisted state as the run without restarts. "
+              "The earlier named hypotheses RunningFeed, Contiguous, Setup, 'new event not forkless-caused by known roots' are discharged (OrdererRestart3.restart_open, step_agree, "
+              "process_lockstep, run_lockstep: two instances with equal persisted state whose elections satisfy the L5 invariant run in lock-step). "
+              "Hypotheses remaining beyond valid history + BFT (hence _partial): claimed frames obey the frame rule (what Process checks) and are < 2^31; canonical validator record (C12); "
+              "the forkless-cause oracle answers the graph relation N.FC before and after the restart (C05; the reload of the vector index from BranchesInfo is not modelled); the "
+              "application does not seal (one epoch). Not proved: restarts across epoch seals, the vector-index reload, store caches (C33). "
+              "Kept from before: C08_persisted_unchanged, C08_volatile_irrelevant, C08_sync (unconditional) and the one-step theorems under named hypotheses "
+              "(C08_restart_election_equiv_partial, C08_next_root_equiv_partial, C08_restart_next_process_partial). "
+              "Non-vacuity: one-validator examples (all hypotheses of C08_restarts_invisible_partial and of C08_restart_election_equiv_partial hold). "
               "Correspondence: instances are restarted (fresh Store caches, fresh vecfc.Index over the kept DBs) at random event boundaries; later outputs must "
               "equal the reference, which has no notion of restart.",
               props=["LachesisVerif.Props.C08"], level="proof"),
